@@ -184,7 +184,7 @@ def main():
     events_validated = sum(r["drv"].get("events", 0) for r in results if r["drv"].get("validate_ok"))
     obligations = lean["obligations"]
     n_obl = len(obligations) + 1  # + the correspondence obligation
-    n_dis = sum(1 for o in obligations if o["ok"]) + (1 if (results and not diverges and not build_errors) else 0)
+    n_dis = sum(1 for o in obligations if o["ok"]) + (1 if (results and not diverges and not build_errors and not new_fails) else 0)
     samples = []
     for o in obligations[:6]:
         samples.append({"theorem": o["name"], "axioms": o["axioms"]})
